@@ -36,6 +36,8 @@ INPUT = (
     "interface e1\n ip address 10.1.2.3 255.255.255.0\n ip address 10.1.2.77 255.255.255.0 secondary\n"
     " ip address 192.168.1.77 255.255.255.0\n ip address 172.16.5.9 255.255.255.0\n"
     " ip address 8.8.4.4 255.255.255.252\n ip address 200.7.6.5 255.255.255.0\n"
+    " ip address 10.77.66.55 255.255.0.0\n ip address 192.168.200.9 255.255.255.0\n ip address 172.20.1.1 255.255.255.0\n"
+    " ip address 11.1.2.3 255.255.255.0\n ip address 172.32.0.1 255.255.255.0\n"
     " ipv6 address 2001:db8::1:5/64\n ipv6 address 2001:db8::1:77/64\n"
     "password s3cretValue\nrouter bgp 65001\n neighbor 138.7.6.5 remote-as 65001 description PlyRouter\n"
 )
@@ -408,6 +410,12 @@ class Equivalences(Part):
                  base + ["--preserve-addresses", "200.7.6.0/24," + PRIV], "preserve-private-addresses-not-equivalent|merged")
             same("private-merged-with-user-list-cfg-order", base + ["--preserve-addresses", "200.7.6.0/24", "--preserve-private-addresses"],
                  base + ["--preserve-addresses", PRIV + ",200.7.6.0/24"], "preserve-private-addresses-not-equivalent|merged")
+            # user lists that overlap the private blocks: inside one, a single host, a supernet, a duplicate
+            for ul in ("10.1.0.0/16", "192.168.1.77", "10.0.0.0/7", "10.0.0.0/8", "172.16.5.0/24,200.7.6.5",
+                       "10.1.2.77/32,192.168.0.0/24"):
+                same("private-merged-with-" + ul, base + ["--preserve-private-addresses", "--preserve-addresses", ul],
+                     base + ["--preserve-addresses", ul + "," + PRIV],
+                     "preserve-private-addresses-not-equivalent|merged-overlapping")
             # main vs library
             for hb, pref, nets, undo in ((None, None, None, False), ("0", "10.0.0.0/8", "10.1.0.0/16", False),
                                          ("17", None, PRIV, False), (None, None, None, True)):
